@@ -168,9 +168,15 @@ class Executor(ResolutionContext):
             self.instrumentation.on_field_end(
                 parent_value, self.context_value, info
             )
-            return self.complete_value(
-                field_definition.type, nodes, path, info, res
-            )
+            try:
+                return self.complete_value(
+                    field_definition.type, nodes, path, info, res
+                )
+            except ResolverError as err:
+                # Raised while completing the value (e.g. by `resolve_type`):
+                # the field has already ended, `fail` must not end it again.
+                self.add_error(err, path, node)
+                return None
 
         try:
             coerced_args = self.argument_values(field_definition, node)
